@@ -34,6 +34,15 @@ def run(tier, seed, t0):
                     ["--mode", "allM", "--seed", seed + 5, "--maxM", 4096], timeout=1800))
     jobs.append(Job("debug-conv", "drv_c13", "debug", "nayuki-portable",
                     ["--mode", "conv", "--seed", seed + 5, "--log2count", 20], timeout=1800))
+    # environment: the application has set another floating-point rounding direction (the unchanged functions are insensitive)
+    for k, mode in enumerate(("upward", "downward", "towardzero")):
+        fl, be = (("optim", "spqlios-fma"), ("debug", "nayuki-portable"), ("optim", "fftw"))[k]
+        jobs.append(Job("phases-fpround-%s" % mode, "drv_c13", fl, be, ["--mode", "phases", "--seed", seed + 7 + k, "--log2count", 22 if thorough else 18],
+                        timeout=1800, env={"VH_FPROUND": mode}))
+        jobs.append(Job("allM-fpround-%s" % mode, "drv_c13", "optim", "spqlios-fma", ["--mode", "allM", "--seed", seed + 7 + k, "--maxM", 32768 if thorough else 2048],
+                        timeout=1800, env={"VH_FPROUND": mode}))
+        jobs.append(Job("conv-fpround-%s" % mode, "drv_c13", "optim", "spqlios-fma", ["--mode", "conv", "--seed", seed + 7 + k, "--log2count", 22 if thorough else 18],
+                        timeout=1800, env={"VH_FPROUND": mode}))
     extra = {"exhaustive": bool(thorough),
              "explanation_scope": "Msize is an int32_t, so M = 2^31 is not expressible through the API; the largest power of two explored is 2^30"}
     return vcheck.simple_run("C13", tier, seed, t0, jobs, "exploration", RULE,
